@@ -1430,6 +1430,10 @@ def c11(chk):
             spec_stage(chk, "download_%d_u%d" % (rep, unit), "Download.tla",
                        dict(Lens={0, 1, 2, 3, 4} if quick else {0, 1, 2, 3, 4, 5, 6, 9}, Kinds={"none", "cut", "cancel"}, Apis={"get", "reader"}, Variant=up_var, Unit=unit),
                        view=None, emit="Emit", invariants=("XReadIsExact", "Prefix"), properties=(), exe="faults", fs=False, chunk=12)
+    # a reader that pauses for seconds in the middle of a large download (nothing fails: it must get everything)
+    spec_stage(chk, "download_slow_reader", "Download.tla", dict(Lens={4, 6} if quick else {1, 4, 6, 9}, Kinds={"pause"}, Apis={"reader"}, Variant=up_var, Unit=64),
+               view=None, emit="Emit", invariants=("XReadIsExact", "Prefix"), properties=(), exe="faults", fs=False, chunk=1,
+               keep=lambda b: b[0]["p"] in (1, b[0]["len"] // 2))
     os.environ.pop("VERIF_SEED_SHIFT", None)
     # what travels in one message: long keys (header / unary request) and long listings (GetKeys answer); 1 unit = 256 KiB
     spec_stage(chk, "one_message", "Wire.tla",
